@@ -10,6 +10,7 @@ import Gv.Model.Gen
 import Gv.Proofs.EvalLemmas
 import Gv.Props.C02
 import Gv.Props.C03
+import Gv.Props.C02
 
 namespace Gv.Props.C11
 open Gv Gv.Str Gv.Eval Gv.Gen
@@ -67,5 +68,36 @@ theorem C11_default_update_nil (fuel : Nat) (ctor inner : Conv) (cv : Val) (n n'
 theorem C11_default_keep (fuel : Nat) (t : S) (rest : FieldPlans) (src ctorVal : Val) (n : Nat) :
     evalFields p (fuel+1) fr (.cons (.skip t) rest) src ctorVal n = evalFields p fuel fr rest src ctorVal n := by
   simp [evalFields]
+
+/-! ### Pointer mismatches inside the composite theorem of C02
+
+`C02_composite` covers plans with `*T → U` positions (generated only with useZeroValueOnPointerInconsistency) and
+`T → *U` positions. Read off the relation `Spec.Img`, for every checked program, every well-typed source of any shape: -/
+
+open Gv.Spec in
+/-- `*T → U`, nil: the result is the zero value of `U` (never a panic, never garbage) -/
+theorem C11_img_nil_pointer_to_value {env : TEnv} {s t se : Ty} {w : Val} (hs : under env s = .ptr se)
+    (ht : ∀ e, under env t ≠ .ptr e) (h : Img env s t .nil w) : IsZeroOf env t w := by
+  cases h with
+  | ptrNil _ h2 => exact absurd h2 (ht _)
+  | toPtr h1 _ _ => exact absurd hs (h1 se)
+  | srcNil _ _ hz => exact hz
+  | sliceNil h1 _ => rw [hs] at h1; cases h1
+  | mapNil h1 _ => rw [hs] at h1; cases h1
+
+open Gv.Spec in
+/-- `*T → U`, non-nil: the result is the image of the pointee -/
+theorem C11_img_pointer_to_value {env : TEnv} {s t se : Ty} {l : Loc} {x w : Val} (hs : under env s = .ptr se)
+    (ht : ∀ e, under env t ≠ .ptr e) (h : Img env s t (.ptr l x) w) : Img env se t x w := by
+  cases h with
+  | ptrPtr _ h2 _ => exact absurd h2 (ht _)
+  | toPtr h1 _ _ => exact absurd hs (h1 se)
+  | srcPtr h1 _ hi => rw [hs] at h1; cases h1; exact hi
+
+open Gv.Spec in
+/-- `T → *U`: always a non-nil pointer to the image of the value (restated from C02) -/
+theorem C11_img_value_to_pointer {env : TEnv} {s t te : Ty} {v w : Val} (hs : ∀ e, under env s ≠ .ptr e)
+    (ht : under env t = .ptr te) (h : Img env s t v w) : ∃ y, w = .ptr .none y ∧ Img env s te v y :=
+  Gv.Props.C02.C02_img_value_to_ptr_nonnil hs ht h
 
 end Gv.Props.C11
